@@ -1131,9 +1131,9 @@ int main(int argc, char** argv) {
     }
   }
   vector<SubCheck> checks;
-  checks.push_back({"roundtrip", run_roundtrip, gen_roundtrip, 60000, 3000000, 100, enum_roundtrip});
-  checks.push_back({"grammar", run_grammar, gen_grammar, 60000, 2000000, 100, enum_grammar});
+  checks.push_back({"roundtrip", run_roundtrip, gen_roundtrip, 60000, 2000000, 100, enum_roundtrip});
+  checks.push_back({"grammar", run_grammar, gen_grammar, 60000, 800000, 100, enum_grammar});
   checks.push_back({"parse_any", run_parse_any, gen_parse_any, 40000, 1500000, 100, nullptr});
-  checks.push_back({"dump", run_dump, gen_dump, 12000, 300000, 100, enum_dump});
+  checks.push_back({"dump", run_dump, gen_dump, 16000, 600000, 100, enum_dump});
   return main_(argc, argv, checks);
 }
